@@ -813,11 +813,19 @@ func (g *G) Steps(label string, maxSteps int) []Step {
 		// "ctxhooks": two hooks; a child that gets a third through a Context method (Timestamp); two
 		//             children of that child that get theirs the same way (Caller / Timestamp): hook
 		//             slices grown by append have spare capacity, and the siblings must not share it
-		patKind = rapid.SampledFrom([]string{"copy", "copy", "disabled", "disabledctx", "ctxhooks"}).Draw(t, label+".updkind")
+		// "disabledsibs": a Disabled logger with fields, two With() children of it, the first one re-enabled
+		//             by Level(): being switched off is no reason to share a context buffer
+		patKind = rapid.SampledFrom([]string{"copy", "copy", "disabled", "disabledctx", "ctxhooks", "disabledsibs"}).Draw(t, label+".updkind")
+		if patKind == "disabledsibs" && n < 5 {
+			patKind = "disabled"
+		}
 		if patKind == "ctxhooks" && (g.cfg.NoHooks || g.cfg.NoCaller) {
 			patKind = "copy"
 		}
 		patAt = rapid.IntRange(0, n-4).Draw(t, label+".updat")
+		if patKind == "disabledsibs" {
+			patAt = rapid.IntRange(0, n-5).Draw(t, label+".updat5")
+		}
 	}
 	patReset := false
 	forceLevel, forceN := 99, -1
@@ -849,6 +857,20 @@ func (g *G) Steps(label string, maxSteps int) []Step {
 			if i == patAt+1 {
 				f = patAt
 			}
+			from, parent = &f, f
+		case patKind == "disabledsibs" && i == patAt:
+			forced, forceLevel = "level", 7
+		case patKind == "disabledsibs" && i == patAt+1:
+			forced = "with"
+			f := patAt
+			from, parent = &f, f
+		case patKind == "disabledsibs" && (i == patAt+2 || i == patAt+3):
+			forced = "with"
+			f := patAt + 1
+			from, parent = &f, f
+		case patKind == "disabledsibs" && i == patAt+4:
+			forced, forceLevel = "level", rapid.SampledFrom([]int{-1, 0, 1}).Draw(t, label+".updon")
+			f := patAt + 2
 			from, parent = &f, f
 		case (patKind == "disabled" || patKind == "disabledctx") && i == patAt:
 			forced, forceLevel = "level", 7
